@@ -133,16 +133,18 @@ def plan(tier, seed):
 
 # ---------------------------------------------------------------------------------------------------------------------
 
-def classify(prog, monitor, nodeid):
+def classify(prog, monitor, nodeid, detail=''):
     """Structural predicate: does the failing node match the mechanism of a ledger finding?"""
     byid = {s['id']: s for s in prog['nodes']}
     s = byid.get(nodeid)
     if s is None or 'op' not in s:
         return None
     op, params = s['op'], s['params']
+    scattered = lambda t: t.get('op') in ('stack', 'concatenate') or (t.get('leaf') == 'topo' and 'ivec' in t['name'])     # X.ivec is a numpy.stack
+    if monitor.startswith('evaluation failed') and 'AssertionError' in detail and op in ('power', 'take', 'getitem') \
+            and any(scattered(byid[a]) for r in s['args'][1:] for a in ({r} | _ancestors(prog, r)) if a in byid):
+        return 'C07-assemble-no-int-range'      # integer exponent / index derived from a scattered (stack, concatenate) integer array
     if monitor.endswith('(optimised code only)'):
-        if op in ('power', 'take', 'getitem') and any(byid[a].get('op') in ('stack', 'concatenate') for r in s['args'][1:] for a in ({r} | _ancestors(prog, r)) if a in byid):
-            return 'C07-assemble-no-int-range'
         return 'C07-optimized-mode-only'
     if op == 'choose' and monitor == 'evaluation failed' and _kind_of(prog, byid[s['args'][0]]) == 'b':
         return 'C07-choose-bool-selector'
@@ -265,7 +267,7 @@ def finish(case, res, key):
     if nontrivial:
         res.add('distinct', hashlib.sha1(c07_core.structure_hash(prog).encode()).hexdigest()[:16])
     for monitor, detail, nid in case.violations:
-        mech = classify(prog, monitor, nid)
+        mech = classify(prog, monitor, nid, detail)
         if mech and not FINDINGS[mech][1]:
             res.count('excluded_corner/' + mech)     # switched off by the maintainer of the ledger: counted, not reported
             continue
